@@ -215,7 +215,9 @@ def subst_case(args):
             break
     # names that begin like a directive, a mnemonic or a register are still just names
     name = rnd.choice(['K', 'VALUE', 'k1', 'RCU_BASE', '_x', 'string_base', 'error_mask', 'stringy', 'errors', 'include_dir', 'align4',
-                       'bytes_n', 'pack_fmt', 'db2', 'li_v', 'x1_copy', 'a0b', 'sp_top', 'nop_count', 'ret_addr', 'c_j'])
+                       'bytes_n', 'pack_fmt', 'db2', 'li_v', 'x1_copy', 'a0b', 'sp_top', 'nop_count', 'ret_addr', 'c_j',
+                       # a mnemonic or directive in another case is a name like any other (names are case-sensitive, keywords are not names)
+                       'ADD', 'Li', 'DW', 'MV', 'SLLI', 'Ret', 'Nop', 'DB', 'Lw', 'PACK'])
     pre = ['addi x0 x0 0'] * rnd.randrange(0, 3)
     post = ['HERE:', 'addi x0 x0 0']
     same_label = rnd.random() < 0.25
